@@ -42,6 +42,14 @@ def main(run: Run):
     run.trusted_base += ["pyvc VC generator (vf/pyvc/engine.py)", "z3 5.1 / cvc5 1.0", "Lean 4.33 + Mathlib for the arithmetic lemma library",
                          "CPython cross-check of the engine's path summaries (vf/pyvc/crosscheck.py)"]
     discharge_all(run, obs, timeout_ms=30000)
+    # engine validation against CPython (every run): disagreement = engine fault (exit 3), never a violation
+    from ..pyvc.crosscheck import crosscheck_memory
+    from ..common import EngineFault
+    try:
+        n = crosscheck_memory(seed=run.seed, n_inputs=16 if run.tier == "quick" else 150)
+        run.extra["cpython_crosscheck"] = {"function_input_pairs": n, "disagreements": 0}
+    except EngineFault as e:
+        run.engine_faults.append(str(e))
     from . import memtrees
     memtrees.run_bounded(run, "history", run.tier, forced=bool(run.undecided) or any(o.status == "undecided" for o in run.obligations))
     for o in obs[:6]:
